@@ -6,12 +6,12 @@ namespace PttVerif.C14
 
 /-- the thread owns its process's lock-table entry. -/
 def owns : PC → Bool
-  | .wantFlock | .haveLock | .seeked _ | .written _ | .unlocked _ | .lockFailed => true
+  | .wantFlock | .haveLock | .seeked _ | .written _ | .unlocked _ | .lockFailed | .bodyFailed | .unlockedErr => true
   | _ => false
 
 /-- the thread's open file description holds the flock. -/
 def holds : PC → Bool
-  | .haveLock | .seeked _ | .written _ => true
+  | .haveLock | .seeked _ | .written _ | .bodyFailed => true
   | _ => false
 
 /-- the record index the thread has written (and will return / has returned). -/
@@ -329,6 +329,82 @@ theorem inv_step (proc : Nat → Nat) (n0 : Nat) (s s' : Sys) (t : Nat)
       exact ⟨ws, h1, h2, by intro u; simp only []; rw [(hh u).2]; exact h3 u⟩
   | doneOk i => rw [hpc] at h; simp at h
   | doneErr => rw [hpc] at h; simp at h
+  | doneFail => rw [hpc] at h; simp at h
+  | bodyFailed =>
+    -- the deferred GoFunlock releases the flock
+    rw [hpc] at h
+    simp only [Option.some.injEq] at h
+    subst h
+    have htholds : holds (s.pc t) = true := by rw [hpc]; rfl
+    have hh : ∀ u, owns (setPc s t .unlockedErr u) = owns (s.pc u)
+        ∧ wroteAt (setPc s t .unlockedErr u) = wroteAt (s.pc u) := by
+      intro u
+      by_cases hu : u = t
+      · subst hu; simp [hpc, owns, wroteAt]
+      · simp [setPc_other _ _ _ _ hu]
+    refine ⟨?_, ?_, ?_, ?_, ?_, ?_, ?_⟩
+    · intro u
+      simp only []
+      by_cases hu : u = t
+      · subst hu; simp [holds]
+      · rw [setPc_other _ _ _ _ hu]
+        constructor
+        · intro e; simp at e
+        · intro e; exact absurd (holds_unique inv u t e htholds) hu
+    · intro u; simp only []; rw [(hh u).1]; exact inv.owns_table u
+    · intro u v; simp only []; rw [(hh u).1, (hh v).1]; exact inv.owner_unique u v
+    · intro p hp
+      obtain ⟨w, hw1, hw2⟩ := inv.table_owner p hp
+      exact ⟨w, hw1, by simp only []; rw [(hh w).1]; exact hw2⟩
+    · intro u j hu
+      by_cases hut : u = t
+      · subst hut; simp at hu
+      · simp only [setPc_other _ _ _ _ hut] at hu; exact inv.seeked_len u j hu
+    · intro u j hu; simp only [] at hu; rw [(hh u).2] at hu; exact inv.written_at u j hu
+    · obtain ⟨ws, h1, h2, h3⟩ := inv.writers
+      exact ⟨ws, h1, h2, by intro u; simp only []; rw [(hh u).2]; exact h3 u⟩
+  | unlockedErr =>
+    -- unlockFD, then the call returns the error of the seek / write
+    rw [hpc] at h
+    simp only [Option.some.injEq] at h
+    subst h
+    have htowns : owns (s.pc t) = true := by rw [hpc]; rfl
+    have hh : ∀ u, holds (setPc s t .doneFail u) = holds (s.pc u)
+        ∧ wroteAt (setPc s t .doneFail u) = wroteAt (s.pc u) := by
+      intro u
+      by_cases hu : u = t
+      · subst hu; simp [hpc, holds, wroteAt]
+      · simp [setPc_other _ _ _ _ hu]
+    refine ⟨?_, ?_, ?_, ?_, ?_, ?_, ?_⟩
+    · intro u; simp only []; rw [(hh u).1]; exact inv.holder_iff u
+    · intro u hu
+      simp only [] at hu
+      have hut : u ≠ t := by intro e; subst e; simp [owns] at hu
+      rw [setPc_other _ _ _ _ hut] at hu
+      have hp : proc u ≠ proc t := fun e => hut (inv.owner_unique u t hu htowns e)
+      simp only [setTable, hp, if_false]
+      exact inv.owns_table u hu
+    · intro u v hu hv hp
+      simp only [] at hu hv
+      have hut : u ≠ t := by intro e; subst e; simp [owns] at hu
+      have hvt : v ≠ t := by intro e; subst e; simp [owns] at hv
+      rw [setPc_other _ _ _ _ hut] at hu; rw [setPc_other _ _ _ _ hvt] at hv
+      exact inv.owner_unique u v hu hv hp
+    · intro p hp
+      simp only [setTable] at hp
+      by_cases hpt : p = proc t
+      · simp [hpt] at hp
+      · simp only [hpt, if_false] at hp
+        obtain ⟨w, hw1, hw2⟩ := inv.table_owner p hp
+        have hwt : w ≠ t := fun e => hpt (by rw [← hw1, e])
+        exact ⟨w, hw1, by simp only [setPc_other _ _ _ _ hwt]; exact hw2⟩
+    · intro u j hu
+      by_cases hut : u = t
+      · subst hut; simp at hu
+      · simp only [setPc_other _ _ _ _ hut] at hu; exact inv.seeked_len u j hu
+    · intro u j hu; simp only [] at hu; rw [(hh u).2] at hu; exact inv.written_at u j hu
+    · obtain ⟨ws, h1, h2, h3⟩ := inv.writers
+      exact ⟨ws, h1, h2, by intro u; simp only []; rw [(hh u).2]; exact h3 u⟩
   | lockFailed =>
     -- the lock function removes the key again and returns the kernel's error
     rw [hpc] at h
@@ -372,33 +448,39 @@ theorem inv_step (proc : Nat → Nat) (n0 : Nat) (s s' : Sys) (t : Nat)
     · obtain ⟨ws, h1, h2, h3⟩ := inv.writers
       exact ⟨ws, h1, h2, by intro u; simp only []; rw [(hh u).2]; exact h3 u⟩
 
-/-- a failing kernel lock call preserves the invariant (the key is still in the table, owned by `t`). -/
+/-- a failing system call preserves the invariant: the thread keeps what it owns and holds, and has
+written nothing. -/
 theorem inv_fail (proc : Nat → Nat) (n0 : Nat) (s s' : Sys) (t : Nat)
     (inv : Inv proc n0 s) (h : failStep s t = some s') : Inv proc n0 s' := by
+  -- in each enabled case the new pc `q` has the same holds / owns / wroteAt as the old one
+  have key : ∀ q : PC, holds q = holds (s.pc t) → owns q = owns (s.pc t) → wroteAt q = wroteAt (s.pc t) →
+      (∀ i, q ≠ .seeked i) → Inv proc n0 { s with pc := setPc s t q } := by
+    intro q h1 h2 h3 h4
+    have hh : ∀ u, holds (setPc s t q u) = holds (s.pc u) ∧ owns (setPc s t q u) = owns (s.pc u)
+        ∧ wroteAt (setPc s t q u) = wroteAt (s.pc u) := by
+      intro u
+      by_cases hu : u = t
+      · subst hu; simp [h1, h2, h3]
+      · simp [setPc_other _ _ _ _ hu]
+    refine ⟨?_, ?_, ?_, ?_, ?_, ?_, ?_⟩
+    · intro u; simp only []; rw [(hh u).1]; exact inv.holder_iff u
+    · intro u; simp only []; rw [(hh u).2.1]; exact inv.owns_table u
+    · intro u v; simp only []; rw [(hh u).2.1, (hh v).2.1]; exact inv.owner_unique u v
+    · intro p hp
+      obtain ⟨w, hw1, hw2⟩ := inv.table_owner p hp
+      exact ⟨w, hw1, by simp only []; rw [(hh w).2.1]; exact hw2⟩
+    · intro u i hu
+      by_cases hut : u = t
+      · subst hut; simp at hu; exact absurd hu (h4 i)
+      · simp only [setPc_other _ _ _ _ hut] at hu; exact inv.seeked_len u i hu
+    · intro u i hu; simp only [] at hu; rw [(hh u).2.2] at hu; exact inv.written_at u i hu
+    · obtain ⟨ws, h1', h2', h3'⟩ := inv.writers
+      exact ⟨ws, h1', h2', by intro u; simp only []; rw [(hh u).2.2]; exact h3' u⟩
   unfold failStep at h
   cases hpc : s.pc t <;> rw [hpc] at h <;> simp only [Option.some.injEq, reduceCtorEq] at h
-  subst h
-  have hh : ∀ u, holds (setPc s t .lockFailed u) = holds (s.pc u)
-      ∧ owns (setPc s t .lockFailed u) = owns (s.pc u)
-      ∧ wroteAt (setPc s t .lockFailed u) = wroteAt (s.pc u) := by
-    intro u
-    by_cases hu : u = t
-    · subst hu; simp [hpc, holds, owns, wroteAt]
-    · simp [setPc_other _ _ _ _ hu]
-  refine ⟨?_, ?_, ?_, ?_, ?_, ?_, ?_⟩
-  · intro u; simp only []; rw [(hh u).1]; exact inv.holder_iff u
-  · intro u; simp only []; rw [(hh u).2.1]; exact inv.owns_table u
-  · intro u v; simp only []; rw [(hh u).2.1, (hh v).2.1]; exact inv.owner_unique u v
-  · intro p hp
-    obtain ⟨w, hw1, hw2⟩ := inv.table_owner p hp
-    exact ⟨w, hw1, by simp only []; rw [(hh w).2.1]; exact hw2⟩
-  · intro u i hu
-    by_cases hut : u = t
-    · subst hut; simp at hu
-    · simp only [setPc_other _ _ _ _ hut] at hu; exact inv.seeked_len u i hu
-  · intro u i hu; simp only [] at hu; rw [(hh u).2.2] at hu; exact inv.written_at u i hu
-  · obtain ⟨ws, h1, h2, h3⟩ := inv.writers
-    exact ⟨ws, h1, h2, by intro u; simp only []; rw [(hh u).2.2]; exact h3 u⟩
+  · subst h; exact key .lockFailed (by simp [hpc, holds]) (by simp [hpc, owns]) (by simp [hpc, wroteAt]) (by simp)
+  · subst h; exact key .bodyFailed (by simp [hpc, holds]) (by simp [hpc, owns]) (by simp [hpc, wroteAt]) (by simp)
+  · subst h; exact key .bodyFailed (by simp [hpc, holds]) (by simp [hpc, owns]) (by simp [hpc, wroteAt]) (by simp)
 
 theorem reachable_inv (proc : Nat → Nat) (n0 : Nat) (s : Sys) (h : Reachable proc true n0 s) : Inv proc n0 s := by
   induction h with
